@@ -2,8 +2,10 @@ package checks
 
 import (
 	"fmt"
+	"os"
 	"reflect"
 	"strings"
+	"sync"
 	"unsafe"
 
 	"github.com/google/go-tdx-guest/abi"
@@ -235,7 +237,8 @@ func funcOfSite(site string) string {
 }
 
 func c16Run(r *core.Run) {
-	if c16SetHook == nil {
+	raceMode := os.Getenv("VERIF_RACE") != ""
+	if c16SetHook == nil && !raceMode {
 		panic("C16 must be built against the instrumented copy (tag c16instr); bin/vcheck does that")
 	}
 	t := r.T
@@ -384,6 +387,46 @@ func c16Run(r *core.Run) {
 		tasks[k] = tk
 	}
 
+	if raceMode {
+		// Supplementary run (plain build with -race, no scheduler, no yield points): the same tasks on truly
+		// parallel goroutines.  Baton passing would hide races from the detector; here nothing synchronises
+		// the tasks except a start barrier.  The race detector's report is the oracle (bin/vcheck reads it);
+		// verdicts are compared with the solo verdicts as well.
+		for _, tk := range tasks {
+			for _, op := range tk.ops {
+				tk.solo = append(tk.solo, errClass(core.Call(op.run)))
+			}
+		}
+		for rep := 0; rep < 3; rep++ {
+			start := make(chan struct{})
+			var wg sync.WaitGroup
+			for _, tk := range tasks {
+				tk := tk
+				tk.sched = nil
+				wg.Add(1)
+				go func() {
+					defer wg.Done()
+					<-start
+					for _, op := range tk.ops {
+						tk.sched = append(tk.sched, errClass(core.Call(op.run)))
+					}
+				}()
+			}
+			close(start)
+			wg.Wait()
+			for k, tk := range tasks {
+				for i := range tk.ops {
+					r.Eval()
+					if tk.sched[i] != tk.solo[i] {
+						r.Violate("C16:verdict-differs-when-run-in-parallel", "task %d call %s: alone %q, in parallel with the other tasks %q", k, tk.ops[i].name, tk.solo[i], tk.sched[i])
+					}
+				}
+			}
+		}
+		r.Probe("parallel_run_under_race_detector")
+		r.State("race form=%d tasks=%d", form, K)
+		return
+	}
 	// --- solo pass: verdicts when run alone, yield count, and the single-call before/after snapshot
 	yields := 0
 	lastSite, prevSite := "", ""
